@@ -1,5 +1,6 @@
 // C09: compressed input is decompressed completely and truncation is detected.
 #include "gen.hpp"
+#include "pipefeed.hpp"
 
 #include <osmium/io/bzip2_compression.hpp>
 #include <osmium/io/compression.hpp>
@@ -52,27 +53,35 @@ static std::string payload(Src& s, size_t len, bool compressible) {
     return p;
 }
 
-// bzip2 payload length whose compressed size is an exact multiple of 5000 (libbz2's stdio read-ahead size)
-static size_t bz_boundary_length() {
-    static size_t cached = 0;
-    if (cached) return cached;
-    vp::Rng r{4711};
-    std::string base;
-    for (size_t i = 0; i < 12000; ++i) base += static_cast<char>(r.next() & 0xff);
-    for (size_t len = 4300; len < 11000; ++len) {
-        if (bz_compress(base.substr(0, len), 9).size() % 5000 == 0) {
-            cached = len;
-            return len;
+// bzip2 payload length whose compressed size is 5000 k + d for d in -2..2 (5000 = libbz2's stdio read-ahead size: the stream ends
+// d bytes after the end of a read-ahead block, i.e. with 0, 1, 2, 4999 or 4998 unused bytes in libbz2's buffer)
+static std::string bz_base(uint64_t seed) {
+    vp::Rng r{seed};
+    std::string b;
+    for (size_t i = 0; i < 12000; ++i) b += static_cast<char>(r.next() & 0xff);
+    return b;
+}
+static const std::string& bz_boundary_payload(int d = 0) {
+    static std::string cached[5];
+    std::string& c = cached[d + 2];
+    if (!c.empty()) return c;
+    const size_t want = static_cast<size_t>((5000 + d) % 5000);
+    // incompressible data: the compressed size grows almost byte by byte with the length (sometimes by 0 or 2, so a size can be skipped:
+    // then another byte sequence is tried)
+    for (uint64_t seed = 4711; seed < 4731; ++seed) {
+        const std::string base = bz_base(seed);
+        const size_t sz0 = bz_compress(base.substr(0, 4800), 9).size();
+        size_t len = 4800 + (want + 5000 - sz0 % 5000) % 5000;
+        len = len > 4860 ? len - 60 : 4800;
+        for (size_t k = 0; k < 200 && len + k < base.size(); ++k) {
+            if (bz_compress(base.substr(0, len + k), 9).size() % 5000 == want) {
+                c = base.substr(0, len + k);
+                return c;
+            }
         }
     }
-    cached = 1;
-    return 1;
-}
-static std::string bz_boundary_payload() {
-    vp::Rng r{4711};
-    std::string base;
-    for (size_t i = 0; i < 12000; ++i) base += static_cast<char>(r.next() & 0xff);
-    return base.substr(0, bz_boundary_length());
+    c = "x";
+    return c;
 }
 
 static size_t part_size(Src& s) {
@@ -116,12 +125,21 @@ struct ReadResult {
 };
 
 // consume a decompressor the way the library's read thread does: until the first empty chunk, then close()
-static ReadResult consume(osmium::io::file_compression comp, const std::string& file_bytes, bool from_fd) {
+// where the compressed bytes come from: a memory buffer, a regular file, or a pipe that delivers the pieces of g_pipe_plan (short reads)
+enum Source { SRC_BUFFER = 0, SRC_FD = 1, SRC_PIPE = 2 };
+static const char* const SRC_NAME[] = {" buffer", " fd", " pipe"};
+static std::vector<size_t> g_pipe_plan;
+
+static ReadResult consume(osmium::io::file_compression comp, const std::string& file_bytes, int from_fd) {
     ReadResult r;
+    std::unique_ptr<pipefeed::Feed> feed;
     try {
         std::unique_ptr<osmium::io::Decompressor> d;
         std::atomic<std::size_t> offset{0};
-        if (from_fd) {
+        if (from_fd == SRC_PIPE) {
+            feed.reset(new pipefeed::Feed{file_bytes, g_pipe_plan});
+            d = osmium::io::CompressionFactory::instance().create_decompressor(comp, feed->read_fd());
+        } else if (from_fd) {
             std::string path = tmpfile_with(file_bytes);
             int fd = ::open(path.c_str(), O_RDONLY);
             d = osmium::io::CompressionFactory::instance().create_decompressor(comp, fd);
@@ -131,7 +149,7 @@ static ReadResult consume(osmium::io::file_compression comp, const std::string& 
         d->set_offset_ptr(&offset);
         for (;;) {
             std::string chunk = d->read();
-            if (offset.load() > file_bytes.size()) r.offset_exceeded = true;
+            if (from_fd != SRC_PIPE && offset.load() > file_bytes.size()) r.offset_exceeded = true;  // (a pipe has no position)
             if (chunk.empty()) break;
             r.out += chunk;
             ++r.chunks;
@@ -141,6 +159,7 @@ static ReadResult consume(osmium::io::file_compression comp, const std::string& 
         r.threw = true;
         r.what = e.what();
     }
+    if (feed) feed->join();  // the decompressor is gone and has closed the read end
     return r;
 }
 
@@ -148,18 +167,20 @@ static const char* cname(osmium::io::file_compression c) { return c == osmium::i
 
 static void multi_stream(Src& s) {
     const auto comp = s.boolean() ? osmium::io::file_compression::gzip : osmium::io::file_compression::bzip2;
-    const bool from_fd = s.boolean();
+    const int from_fd = static_cast<int>(s.weighted({2, 2, 1}));
     size_t k = 1 + s.draw(6);
     std::vector<Stream> streams;
-    std::string desc = std::string{cname(comp)} + (from_fd ? " fd" : " buffer") + " streams:";
+    std::string desc = std::string{cname(comp)} + SRC_NAME[from_fd] + " streams:";
     bool used_boundary = false;
     for (size_t i = 0; i < k; ++i) {
         Stream st;
         if (comp == osmium::io::file_compression::bzip2 && s.chance(1, 6)) {
-            st.plain = bz_boundary_payload();
+            static const int ds[] = {0, 0, 1, -1, 2, -2};
+            st.plain = bz_boundary_payload(ds[s.draw(6)]);
             used_boundary = true;
             st.comp = bz_compress(st.plain, 9);
             desc += " [bz2 stream of exactly " + std::to_string(st.comp.size()) + " compressed bytes]";
+            vp::count("bz2_stream_size_mod_5000_is_" + std::to_string(st.comp.size() % 5000));
         } else {
             bool compressible = s.boolean();
             st.plain = payload(s, part_size(s), compressible);
@@ -177,6 +198,23 @@ static void multi_stream(Src& s) {
         plain += st.plain;
         boundaries.push_back(file.size());
         plain_boundaries.push_back(plain.size());
+    }
+    g_pipe_plan.clear();
+    if (from_fd == SRC_PIPE) {
+        // pieces: exactly the streams (the data at hand ends where a stream ends), or random sizes below / around the read-ahead sizes
+        const unsigned mode = s.weighted({2, 2, 1});
+        if (mode == 0) {
+            for (const auto& st : streams) g_pipe_plan.push_back(st.comp.size());
+            desc += " | pipe delivers one stream per piece";
+        } else {
+            const size_t maxp = mode == 1 ? 1 + s.draw(9000) : 1 + s.draw(8);
+            for (size_t used = 0; used < file.size() && g_pipe_plan.size() < 3000;) {
+                size_t n = 1 + s.draw(maxp);
+                g_pipe_plan.push_back(n);
+                used += n;
+            }
+            desc += " | pipe delivers pieces of 1.." + std::to_string(maxp) + " bytes";
+        }
     }
     if (vp::want_desc()) vp::describe(desc);
 
@@ -233,7 +271,7 @@ static void multi_stream(Src& s) {
             if (boundaries[j] == cut && r.out == plain.substr(0, plain_boundaries[j])) ok = true;
         }
         if (!ok) {
-            vp::fail("truncation-accepted", std::string{cname(comp)} + (from_fd ? " fd" : " buffer") + ": file cut at byte " + std::to_string(cut) + " of " + std::to_string(file.size()) + " was accepted without error (" + std::to_string(r.out.size()) + " of " + std::to_string(plain.size()) + " bytes delivered) | " + desc);
+            vp::fail("truncation-accepted", std::string{cname(comp)} + SRC_NAME[from_fd] + ": file cut at byte " + std::to_string(cut) + " of " + std::to_string(file.size()) + " was accepted without error (" + std::to_string(r.out.size()) + " of " + std::to_string(plain.size()) + " bytes delivered) | " + desc);
         }
         vp::count("truncation_at_stream_boundary");
     }
@@ -261,12 +299,12 @@ static void multi_stream(Src& s) {
             continue;
         }
         if (r.out.size() < plain.size() && plain.compare(0, r.out.size(), r.out) == 0) {
-            vp::fail("corruption-accepted-as-shorter-file", std::string{cname(comp)} + (from_fd ? " fd" : " buffer") + ": byte " + std::to_string(pos) + " of " + std::to_string(file.size()) + " corrupted, accepted without error with " + std::to_string(r.out.size()) + " of " + std::to_string(plain.size()) + " bytes | " + desc);
+            vp::fail("corruption-accepted-as-shorter-file", std::string{cname(comp)} + SRC_NAME[from_fd] + ": byte " + std::to_string(pos) + " of " + std::to_string(file.size()) + " corrupted, accepted without error with " + std::to_string(r.out.size()) + " of " + std::to_string(plain.size()) + " bytes | " + desc);
         }
         vp::count("corruption_other_output_not_asserted");
     }
     if (k >= 2) vp::nontrivial(vp::hash_str(desc) ^ vp::hash_str(plain));
-    vp::count(std::string{cname(comp)} + (from_fd ? "_fd" : "_buffer"));
+    vp::count(std::string{cname(comp)} + (from_fd == SRC_PIPE ? "_pipe" : from_fd ? "_fd" : "_buffer"));
     if (used_boundary) vp::count("bz2_stream_multiple_of_5000");
 }
 
@@ -420,9 +458,9 @@ VP_BUILTIN(F12_truncated_buffer_accepted) {
     }
 }
 
-VP_MAIN(prop, "generated payloads (part sizes 0, 1, 100, 10239..10241, k*input_buffer_size+-2, bzip2 streams whose compressed size is an exact multiple of 5000, random; compressible and "
-              "incompressible) split into 1..6 separately compressed streams (zlib / libbz2 one-shot APIs) x {gzip, bzip2} x {file descriptor, memory buffer}; consumed like the read thread "
+VP_MAIN(prop, "generated payloads (part sizes 0, 1, 100, 10239..10241, k*input_buffer_size+-2, bzip2 streams whose compressed size is 5000k-2..5000k+2, random; compressible and "
+              "incompressible) split into 1..6 separately compressed streams (zlib / libbz2 one-shot APIs) x {gzip, bzip2} x {regular file, memory buffer, pipe that delivers one stream per piece or generated short reads}; consumed like the read thread "
               "does (until the first empty chunk, then close); every truncation for files <= 64 bytes, 24 generated cuts otherwise (uniform, near stream boundaries, in the header); 12 "
               "single-byte corruptions; the library's own compressors with random chunking; whole-Reader runs on multi-stream OPL. Oracle: concatenation of chunks == reference payload, "
-              "truncation => exception unless the cut is a stream boundary, corruption => exception or unchanged payload (violation only if a strict prefix is accepted), offset <= size. "
+              "truncation => exception unless the cut is a stream boundary, corruption => exception or unchanged payload (violation only if a strict prefix is accepted), offset <= size (regular files). "
               "non-trivial = >= 2 streams; distinct by hash")
